@@ -1475,7 +1475,7 @@ func ruleWhoCloses(w *World, r *Report, rule string) {
 				switch {
 				case isLoopCall(c) && isCloseMethod:
 					r.OK(rule, con, c.Pos(), true, "disposal loop of the owner's Close")
-				case isTrackingCode(w, ro, fi) && overlapIdiom(w, fi, c):
+				case (isTrackingCode(w, ro, fi) && overlapIdiom(w, fi, c)) || overlapIdiomAnyOwner(w, fi, c):
 					r.OK(rule, con, c.Pos(), true, "overlap-disposal idiom: the instance is closed here only because the disposed flag was found set inside the list's critical section, i.e. it was not (and will never be) tracked")
 				default:
 					r.Fail(rule, con, c.Pos(), "an instance's Close() is called from %s outside the owner's disposal loop: container-held instances may be closed early or twice", fi.Name())
@@ -1646,4 +1646,40 @@ func isCoreShape(fi *FuncInfo) bool {
 		return false
 	}
 	return isErrorType(sig.Results().At(1).Type())
+}
+
+// overlapIdiomAnyOwner: the tracked-or-closed idiom written anywhere (a helper
+// that files a rejected instance with its owner): the Close is reached only on
+// the edge where the disposed flag of some scope / provider was found set while a
+// lock was held, and the same function appends to a disposal list on the other edge.
+func overlapIdiomAnyOwner(w *World, fi *FuncInfo, call *ast.CallExpr) bool {
+	info := fi.Pkg.TypesInfo
+	fl := w.FlowOf(fi)
+	sol := fl.Solve(Spec{Must: true, Edge: func(b *cfg.Block, i int, cond ast.Expr, in Facts) (gen, kill []string) {
+		if cond == nil {
+			return
+		}
+		if _, dead, ok := anyDisposedTest(info, cond); ok && dead == (i == 0) {
+			gen = append(gen, "dead")
+		}
+		return
+	}})
+	n := fl.NodeContaining(call.Pos())
+	if n == nil || !sol.Before[n].Has("dead") {
+		return false
+	}
+	appends := false
+	ast.Inspect(fi.Decl.Body, func(x ast.Node) bool {
+		if as, ok := x.(*ast.AssignStmt); ok && len(as.Lhs) == 1 && len(as.Rhs) == 1 {
+			if fv := fieldOf(info, as.Lhs[0]); fv != nil {
+				if sl, isSl := fv.Type().Underlying().(*types.Slice); isSl && isNamedType(sl.Elem(), modPath, "Disposable") {
+					if c, isC := unparen(as.Rhs[0]).(*ast.CallExpr); isC && exprStr(c.Fun) == "append" {
+						appends = true
+					}
+				}
+			}
+		}
+		return true
+	})
+	return appends
 }
